@@ -19,7 +19,7 @@ ROOT = os.path.dirname(os.path.dirname(os.path.abspath(__file__)))
 COQ = os.path.join(ROOT, "coq")
 BUILD = os.path.join(ROOT, "build")
 MODEL_EXE = os.path.join(BUILD, "model.exe")
-REPO = "/repo"
+REPO = os.environ.get("VERIF_REPO", "/repo")   # (override only used by tools/seed_matrix.sh to test seeded copies in a scratch worktree)
 
 # --------------------------------------------------------------------------- rationals
 
@@ -354,3 +354,16 @@ def excname(fn, *a, **k):
         return "ok", fn(*a, **k)
     except Exception as e:  # noqa: BLE001
         return type(e).__name__, None
+
+
+def conditioning(V, offset=None):
+    """Rounding-allowance factor (>= 1) for measures of thin shapes far from the origin: volume, moments, ... are sums of terms of size
+    offset * extent^k that cancel down to thin-extent * extent^k, so the attainable relative accuracy degrades like
+    offset / thinnest extent.  1 for ordinary shapes (offset / thin < 1000)."""
+    import numpy as np
+    V = np.asarray(V, float)
+    ev = np.linalg.eigvalsh(np.cov((V - V.mean(0)).T))
+    ev = ev[ev > 1e-12 * max(float(ev.max()), 1e-300)]
+    thin = 2 * math.sqrt(float(ev.min())) if len(ev) else 1.0
+    off = float(np.linalg.norm(V.mean(0))) if offset is None else float(offset)
+    return max(1.0, off / thin / 1000.0)
